@@ -41,25 +41,38 @@ def _convert_variable(v):
 
 
 def _convert_expr(e):
-    if e is None:
-        return "*"
-    if isinstance(e, bool):
-        return "true" if e else "false"
-    if isinstance(e, int):
-        return str(e)
-    if not isinstance(e, Expr):
-        raise TypeError()
-
-    if isinstance(e, BoolVar):
-        return "b{}".format(e.id)
-    elif isinstance(e, IntVar):
-        return "i{}".format(e.id)
-    elif e.op == Op.BOOL_CONSTANT:
-        return "true" if e.operands[0] else "false"
-    elif e.op == Op.INT_CONSTANT:
-        return str(e.operands[0])
-    else:
-        return "({} {})".format(OP_TO_OPNAME[e.op], " ".join(map(_convert_expr, e.operands)))
+    # Iterative post-order traversal: an expression such as sum(cells) over a large
+    # board is a chain nested deeper than the interpreter's recursion limit.
+    stack = [(e, False)]
+    results = []
+    while stack:
+        node, expanded = stack.pop()
+        if node is None:
+            results.append("*")
+        elif isinstance(node, bool):
+            results.append("true" if node else "false")
+        elif isinstance(node, int):
+            results.append(str(node))
+        elif not isinstance(node, Expr):
+            raise TypeError()
+        elif isinstance(node, BoolVar):
+            results.append("b{}".format(node.id))
+        elif isinstance(node, IntVar):
+            results.append("i{}".format(node.id))
+        elif node.op == Op.BOOL_CONSTANT:
+            results.append("true" if node.operands[0] else "false")
+        elif node.op == Op.INT_CONSTANT:
+            results.append(str(node.operands[0]))
+        elif not expanded:
+            stack.append((node, True))
+            for operand in reversed(node.operands):
+                stack.append((operand, False))
+        else:
+            n = len(node.operands)
+            operands = results[len(results) - n :]
+            del results[len(results) - n :]
+            results.append("({} {})".format(OP_TO_OPNAME[node.op], " ".join(operands)))
+    return results[0]
 
 
 class SugarLikeBackend(Backend):
